@@ -6,19 +6,25 @@ import BU.Crypto.Sha256
 the translator by running what it emitted against the implementation it was emitted from. -/
 open Driver
 
+/-- as `Driver.ans`, but a function the translator could not translate answers `unsupported` -/
+def ansG {α} (f : α → String) : Except PyErr α → String
+  | .ok v => "ok " ++ f v
+  | .error .unsupported => "unsupported"
+  | .error _ => "err"
+
 def pair (p : Int × Int) : String := s!"{p.1} {p.2}"
 
 def genOps : List (String × R String) := [
-  ("g:cs_enc", do let n ← int; pure (ans hex (Gen.encode_varint n))),
-  ("g:cs_dec", do let b ← bytes; pure (ans pair (Gen.parse_compact_size b))),
-  ("g:vi_dec", do let b ← bytes; pure (ans pair (Gen.vi_to_int b))),
-  ("g:prepend", do let b ← bytes; pure (ans hex (Gen.prepend_compact_size b))),
-  ("g:push_data", do let b ← bytes; pure (ans hex (Gen.op_push_data b))),
-  ("g:push_int", do let n ← int; pure (ans hex (Gen.push_integer n))),
-  ("g:locktime", do let n ← int; pure (ans hex (Gen.locktime_for_transaction n))),
+  ("g:cs_enc", do let n ← int; pure (ansG hex (Gen.encode_varint n))),
+  ("g:cs_dec", do let b ← bytes; pure (ansG pair (Gen.parse_compact_size b))),
+  ("g:vi_dec", do let b ← bytes; pure (ansG pair (Gen.vi_to_int b))),
+  ("g:prepend", do let b ← bytes; pure (ansG hex (Gen.prepend_compact_size b))),
+  ("g:push_data", do let b ← bytes; pure (ansG hex (Gen.op_push_data b))),
+  ("g:push_int", do let n ← int; pure (ansG hex (Gen.push_integer n))),
+  ("g:locktime", do let n ← int; pure (ansG hex (Gen.locktime_for_transaction n))),
   ("g:seq", do
       let ty ← int; let v ← int; let blk ← bool
-      pure (ans id (do
+      pure (ansG id (do
         Gen.sequence_init ty v blk
         let a ← Gen.sequence_for_input ty v blk
         let b := match Gen.sequence_for_script ty v blk with | .ok n => toString n | .error _ => "err"
@@ -32,14 +38,14 @@ def optS {α} (f : α → String) : Option α → String | none => "none" | some
 def w32 (x : Int) : Int := x % 4294967296
 
 def genOps2 : List (String × R String) := [
-  ("g:rmd_rol", do let x ← int; let i ← int; pure (ans (fun v => toString (w32 v)) (Gen.rmd_rol x i))),
-  ("g:rmd_fi", do let x ← int; let y ← int; let z ← int; let i ← int; pure (ans (fun v => toString (w32 v)) (Gen.rmd_fi x y z i))),
-  ("g:tx_len", do let b ← bytes; pure (ans toString (Gen.get_transaction_length b))),
-  ("g:polymod", do let v ← listOf int; pure (ans toString (Gen.bech32_polymod v))),
-  ("g:hrp_expand", do let h ← chars; pure (ans ints (Gen.bech32_hrp_expand h))),
-  ("g:verify_checksum", do let h ← chars; let d ← listOf int; pure (ans (optS toString) (Gen.bech32_verify_checksum h d))),
-  ("g:create_checksum", do let h ← chars; let d ← listOf int; let sp ← int; pure (ans ints (Gen.bech32_create_checksum h d sp))),
-  ("g:convertbits", do let d ← listOf int; let f ← int; let t ← int; let p ← bool; pure (ans (optS ints) (Gen.convertbits d f t p)))
+  ("g:rmd_rol", do let x ← int; let i ← int; pure (ansG (fun v => toString (w32 v)) (Gen.rmd_rol x i))),
+  ("g:rmd_fi", do let x ← int; let y ← int; let z ← int; let i ← int; pure (ansG (fun v => toString (w32 v)) (Gen.rmd_fi x y z i))),
+  ("g:tx_len", do let b ← bytes; pure (ansG toString (Gen.get_transaction_length b))),
+  ("g:polymod", do let v ← listOf int; pure (ansG toString (Gen.bech32_polymod v))),
+  ("g:hrp_expand", do let h ← chars; pure (ansG ints (Gen.bech32_hrp_expand h))),
+  ("g:verify_checksum", do let h ← chars; let d ← listOf int; pure (ansG (optS toString) (Gen.bech32_verify_checksum h d))),
+  ("g:create_checksum", do let h ← chars; let d ← listOf int; let sp ← int; pure (ansG ints (Gen.bech32_create_checksum h d sp))),
+  ("g:convertbits", do let d ← listOf int; let f ← int; let t ← int; let p ← bool; pure (ansG (optS ints) (Gen.convertbits d f t p)))
 ]
 
 def pt : R (Option (Int × Int)) := do
@@ -53,38 +59,38 @@ def genOps3 : List (String × R String) := [
       let ts ← toks
       let py := ts.map fun t => match t with
         | Spec.Tok.op n => Py.PyTok.name n | Spec.Tok.int n => Py.PyTok.int n | Spec.Tok.data d => Py.PyTok.data d
-      pure (ans hex (Gen.script_to_bytes Gen.OP_CODES py))),
+      pure (ansG hex (Gen.script_to_bytes Gen.OP_CODES py))),
   ("g:tx_ser", do
       let t ← tx; let seg ← bool
       let py := fun (ts : List Spec.Tok) => ts.map fun t => match t with
         | Spec.Tok.op n => Py.PyTok.name n | Spec.Tok.int n => Py.PyTok.int n | Spec.Tok.data d => Py.PyTok.data d
-      pure (ans hex (Gen.transaction_to_bytes Gen.OP_CODES t.version
+      pure (ansG hex (Gen.transaction_to_bytes Gen.OP_CODES t.version
         (t.inputs.map fun i => ⟨i.txid, i.index, py i.scriptSig, i.sequence⟩)
         (t.outputs.map fun o => ⟨o.amount, py o.script⟩) (t.witnesses.map Py.PyWit.mk) t.locktime seg))),
   ("g:disasm", do
       let b ← bytes; let seg ← bool
       let sh := fun (t : Py.PyTok) => match t with
         | Py.PyTok.name n => "o:" ++ n | Py.PyTok.int n => "i:" ++ toString n | Py.PyTok.data d => "d:" ++ hex d
-      pure (ans (fun (ts : List Py.PyTok) => " ".intercalate (toString ts.length :: ts.map sh)) (Gen.script_from_raw Gen.CODE_OPS b seg))),
-  ("g:tapbranch", do let a ← bytes; let b ← bytes; pure (ans hex (Gen.tapbranch_tagged_hash Crypto.sha256 a b))),
+      pure (ansG (fun (ts : List Py.PyTok) => " ".intercalate (toString ts.length :: ts.map sh)) (Gen.script_from_raw Gen.CODE_OPS b seg))),
+  ("g:tapbranch", do let a ← bytes; let b ← bytes; pure (ansG hex (Gen.tapbranch_tagged_hash Crypto.sha256 a b))),
   ("g:tapleaf", do
       let ts ← toks
       let py := ts.map fun t => match t with
         | Spec.Tok.op n => Py.PyTok.name n | Spec.Tok.int n => Py.PyTok.int n | Spec.Tok.data d => Py.PyTok.data d
-      pure (ans hex (Gen.tapleaf_tagged_hash Crypto.sha256 Gen.OP_CODES py))),
-  ("g:msg_prefix", do let m ← bytes; pure (ans hex (Gen.add_magic_prefix m))),
+      pure (ansG hex (Gen.tapleaf_tagged_hash Crypto.sha256 Gen.OP_CODES py))),
+  ("g:msg_prefix", do let m ← bytes; pure (ansG hex (Gen.add_magic_prefix m))),
   ("g:spk", do
       let ty ← next; let h ← bytes; let _net ← next
       let t := if ty == "p2pkh" then Gen.p2pkh_script_pub_key h else if ty == "p2sh" then Gen.p2sh_script_pub_key h
         else if ty == "p2wpkh" then Gen.p2wpkh_script_pub_key h else if ty == "p2wsh" then Gen.p2wsh_script_pub_key h
         else Gen.p2tr_script_pub_key h
-      pure (ans hex (t >>= Gen.script_to_bytes Gen.OP_CODES))),
+      pure (ansG hex (t >>= Gen.script_to_bytes Gen.OP_CODES))),
   ("g:script_commit", do
       let ts ← toks
       let py := ts.map fun t => match t with
         | Spec.Tok.op n => Py.PyTok.name n | Spec.Tok.int n => Py.PyTok.int n | Spec.Tok.data d => Py.PyTok.data d
       let dat := fun (l : List Py.PyTok) => match l[1]? with | some (Py.PyTok.data d) => hex d | _ => "?"
-      pure (ans id (do
+      pure (ansG id (do
         let a ← Gen.script_to_p2sh_spk Crypto.sha256 Gen.OP_CODES py
         let b ← Gen.script_to_p2wsh_spk Crypto.sha256 Gen.OP_CODES py
         let ab ← Gen.script_to_bytes Gen.OP_CODES a
@@ -94,24 +100,31 @@ def genOps3 : List (String × R String) := [
       let t ← tx; let i ← nat; let code ← toks; let amt ← int; let ht ← nat
       let py := fun (ts : List Spec.Tok) => ts.map fun t => match t with
         | Spec.Tok.op n => Py.PyTok.name n | Spec.Tok.int n => Py.PyTok.int n | Spec.Tok.data d => Py.PyTok.data d
-      pure (ans hex (Gen.segwit_digest Crypto.sha256 Gen.OP_CODES t.version
+      pure (ansG hex (Gen.segwit_digest Crypto.sha256 Gen.OP_CODES t.version
         (t.inputs.map fun i => ⟨i.txid, i.index, py i.scriptSig, i.sequence⟩)
         (t.outputs.map fun o => ⟨o.amount, py o.script⟩) t.locktime (i : Int) (py code) amt (ht : Int)))),
+  ("g:dig_legacy", do
+      let t ← tx; let i ← nat; let code ← toks; let ht ← nat
+      let py := fun (ts : List Spec.Tok) => ts.map fun t => match t with
+        | Spec.Tok.op n => Py.PyTok.name n | Spec.Tok.int n => Py.PyTok.int n | Spec.Tok.data d => Py.PyTok.data d
+      pure (ansG hex (Gen.legacy_digest Crypto.sha256 Gen.OP_CODES t.version
+        (t.inputs.map fun i => ⟨i.txid, i.index, py i.scriptSig, i.sequence⟩)
+        (t.outputs.map fun o => ⟨o.amount, py o.script⟩) (t.witnesses.map Py.PyWit.mk) t.locktime (i : Int) (py code) (ht : Int)))),
   ("g:dig_v1", do
       let t ← tx; let i ← nat; let spks ← listOf toks; let amts ← listOf int; let ext ← nat; let leaf ← toks; let ht ← nat
       let py := fun (ts : List Spec.Tok) => ts.map fun t => match t with
         | Spec.Tok.op n => Py.PyTok.name n | Spec.Tok.int n => Py.PyTok.int n | Spec.Tok.data d => Py.PyTok.data d
       -- leaf_ver is passed as 0: the function overwrites it (gen_taproot_digest holds for every value)
-      pure (ans hex (Gen.taproot_digest Crypto.sha256 Gen.OP_CODES t.version
+      pure (ansG hex (Gen.taproot_digest Crypto.sha256 Gen.OP_CODES t.version
         (t.inputs.map fun i => ⟨i.txid, i.index, py i.scriptSig, i.sequence⟩)
         (t.outputs.map fun o => ⟨o.amount, py o.script⟩) t.locktime (i : Int) (spks.map py) amts (ext : Int) (py leaf) 0 (ht : Int)))),
-  ("g:rmd", do let b ← bytes; pure (ans hex (Gen.rmd_ripemd160 b))),
-  ("g:schnorr_sign", do let m ← bytes; let k ← bytes; let a ← bytes; pure (ans hex (Gen.schnorr_sign Crypto.sha256 m k a))),
-  ("g:schnorr_verify", do let m ← bytes; let k ← bytes; let s ← bytes; pure (ans (fun (b : Bool) => if b then "1" else "0") (Gen.schnorr_verify Crypto.sha256 m k s))),
-  ("g:pt_add", do let a ← pt; let b ← pt; pure (ans ptS (Gen.schnorr_point_add a b))),
-  ("g:pt_mul", do let a ← pt; let k ← int; pure (ans ptS (Gen.schnorr_point_mul a k))),
-  ("g:lift_x", do let x ← int; pure (ans ptS (Gen.schnorr_lift_x x))),
-  ("g:even_y", do let a ← pt; pure (ans (fun (b : Bool) => if b then "1" else "0") (Gen.schnorr_has_even_y a)))
+  ("g:rmd", do let b ← bytes; pure (ansG hex (Gen.rmd_ripemd160 b))),
+  ("g:schnorr_sign", do let m ← bytes; let k ← bytes; let a ← bytes; pure (ansG hex (Gen.schnorr_sign Crypto.sha256 m k a))),
+  ("g:schnorr_verify", do let m ← bytes; let k ← bytes; let s ← bytes; pure (ansG (fun (b : Bool) => if b then "1" else "0") (Gen.schnorr_verify Crypto.sha256 m k s))),
+  ("g:pt_add", do let a ← pt; let b ← pt; pure (ansG ptS (Gen.schnorr_point_add a b))),
+  ("g:pt_mul", do let a ← pt; let k ← int; pure (ansG ptS (Gen.schnorr_point_mul a k))),
+  ("g:lift_x", do let x ← int; pure (ansG ptS (Gen.schnorr_lift_x x))),
+  ("g:even_y", do let a ← pt; pure (ansG (fun (b : Bool) => if b then "1" else "0") (Gen.schnorr_has_even_y a)))
 ]
 
 def handle (line : String) : String :=
